@@ -256,6 +256,12 @@ def shardedTreeRoots (root : Nat → Nat → BlockDiag.A2 α → ρ) (filler : B
 def gateTree {π : Type} (thr : XF) (res : List (List (π × XF))) (old : List (List π)) : List (List π) :=
   List.zipWith (List.zipWith fun r o => select r.2 thr r.1 o) res old
 
+/-- `matrix_inverse_pth_root_eigh` (C08's model, eigen-solver a parameter) in the batch position, as the gate sees it:
+the root (pad to `N`, `padding_start = s`, cut) and a reported error computed from the statistic and that root -/
+def eighBatchRoot {α : Type} [Zero α] [One α] [Add α] [Mul α] (kernel : BlockDiag.Kernel α) (invE : α → α) (ridgeOf : Nat → BlockDiag.A2 α → α)
+    (errOf : Nat → BlockDiag.A2 α → BlockDiag.A2 α → XF) (N s : Nat) (a : BlockDiag.A2 α) : Mx α × XF :=
+  (BlockDiag.rdM (BlockDiag.paddedEighRoot kernel invE N s (ridgeOf s a) a), errOf s a (BlockDiag.paddedEighRoot kernel invE N s (ridgeOf s a) a))
+
 /-- a tabulated matrix of C08 as an `n × n` matrix of C01 -/
 def ofA2 [Zero α] (n : Nat) (a : BlockDiag.A2 α) : Mat α n n := fun i j => BlockDiag.rdM a i.val j.val
 
